@@ -20,7 +20,14 @@ RULE = ('one case per (compound, density route, call form, wavelength): D2O_sld 
         '(sld, Dsld, D2Omatch, D2Osld grid, D2O_sld on its labile formula at several wavelengths).  Random '
         'compounds: 1-6 atom kinds (biological elements, any element with neutron data, isotopes incl. '
         'energy-dependent absorbers), 0..n labile H[1] (integer or fractional), natural H and D already '
-        'present, density 0.05-20 given as density=, natural_density=, "@x", "@xn" or on a Formula / dict.  '
+        'present, density 0.05-20 (8 % of the keyword densities 1e-12..1e4) given as density=, natural_density=, '
+        '"@x", "@xn" or on a Formula / dict.  Argument forms of the compound: string, string with a density tag AND '
+        'a density keyword, dict, Formula object carrying the density (no keyword), Formula object without density + '
+        'keyword, Formula object WITH its own density (from "@x", "@xn", density=, natural_density= or the '
+        'one-element default; built from a string or a dict; optionally n*formula) + density= / natural_density= '
+        'keyword of another value; name= / table= keywords, fractions 0 and 1 as ints; half of the Formula objects '
+        'are used once more after the caller assigned them a new density, and every Formula object is compared '
+        'with its state before the calls.  '
         'distinct = distinct (composition, density route, call form, wavelength) tuples; a case is non-trivial '
         'when the compound has atoms and non-zero density (gap / masked table entries are evaluated, not counted)')
 TECHNIQUE = ('runtime monitoring: reference-model monitor (own isotope substitution at constant cell volume with '
@@ -44,6 +51,10 @@ ASSUMPTIONS = [
     'when solute and solvent have the same dependence on the D2O fraction (|denominator| < 1e-6 of the SLD scale, '
     'e.g. water itself) no match point exists and nothing is demanded of D2O_match / D2Omatch',
     'atomic masses from the independent reader pvmon/ref/masses.py',
+    'a density= / natural_density= keyword of D2O_sld / D2O_match ("passed to formulas.formula when parsing the '
+    'compound") is the density of that call: it takes precedence over a density the Formula object or the formula '
+    'text already carries; the two keywords are never given together; natural_density converts by the ratio of '
+    'isotopic to natural mass; D2O_sld / D2O_match leave a Formula object passed in unchanged',
 ]
 
 TOL = 1e-9
@@ -148,6 +159,7 @@ def finish(ctx):
             ctx.require('arg.formula[%s]+%s' % (o, r), 5,
                         'Formula object carrying a density (%s) with the %s= keyword not exercised' % (o, r))
     ctx.require('arg.scaled_formula_object', 5, 'n*formula objects not exercised')
+    ctx.require('arg.formula_object_density_reassigned', 20, 'no Formula object used again after a new density was assigned')
     ctx.require('density.extreme', 10, 'no very small / very large density')
 
 
@@ -384,6 +396,9 @@ def _compound_case(ctx):
             'positional': rng.random() < 0.5}
     if own is not None:
         case['own'] = own
+    if form == 'formula' and rng.random() < 0.5:
+        # afterwards the caller assigns another density to his object and asks again, without keyword
+        case['reassign'] = float('%.5g' % (10 ** rng.uniform(-1.3, 1.3)))
     if rng.random() < 0.3:
         case['int_fractions'] = True         # 0 and 1 of the grid passed as Python ints
     if rng.random() < 0.1:
@@ -646,6 +661,21 @@ def check_compound(ctx, case):
         if now != snapshot:
             ctx.violation('%s: the Formula object passed in was modified: (structure, density, name) %r -> %r'
                           % (what, snapshot, now), field='argument-modified', **feat)
+    if snapshot is not None and case.get('reassign'):
+        # the same object again after the caller gave it another density: nothing computed before may stick to it
+        rho2 = case['reassign']
+        comp.density = rho2
+        model2 = Model(atoms, rho2, wlkw)
+        v, d = 1.0, case['grid'][2][1]
+        got = nsf.D2O_sld(comp, v, d, **wlkw)
+        want = model2.solution(v, d)
+        ctx.count('arg.formula_object_density_reassigned')
+        ctx.evaluated(2, 'D2O_sld.reassigned')
+        if not (_agree(ctx, got[0], want[0], model2.scale[0], 'D2O_sld.real.err_over_scale')
+                and _agree(ctx, got[1], want[1], model2.scale[1], 'D2O_sld.imag.err_over_scale')):
+            ctx.violation('D2O_sld(Formula object of %s after its density was set to %r, used before as %s): SLD at '
+                          'volume fraction 1, D2O fraction %r is %r, substitution at constant volume gives %r'
+                          % (case['text'], rho2, what, d, got[:2], want), field='D2O_sld.reassigned', v=v, d=d, **feat)
 
 
 def _build_molecule(case):
